@@ -290,3 +290,175 @@ Proof.
   exists (flat_map item_lines its). split; [exact M|]. intros u Hu. unfold final_out. rewrite O.
   now apply (serial_out j kd its F u).
 Qed.
+
+(* at every moment of every schedule at which the mutex of branch j is free, its
+   sinks hold whole lines only: a merge of prefixes of the threads' lines *)
+Theorem quiescent_thm cfg prog sched j kd :
+  nth_error cfg j = Some kd -> holder (zrun cfg prog sched) j = None ->
+  exists (pre : nat -> list bytes) sigma,
+    (forall t, exists rest, pre t ++ rest = prog_lines j prog t) /\ MergeOf pre sigma /\
+    match kd with
+    | KLocked k => forall u, u < k -> outs (obj (zrun cfg prog sched) j) u = concat sigma
+    | KBuffered _ => exists n, outs (obj (zrun cfg prog sched) j) 0 = concat (firstn n sigma)
+    end.
+Proof.
+  intros Hk Hh.
+  destruct (atomicity_any sinkst sact sact_run item item_sec (fun t => thread_items cfg (nth t prog [])) (fun _ => sink0) sched j)
+    as (lab & part & Hobj & Hpart & Hpre).
+  rewrite (Hpart Hh) in Hobj.
+  change (obj (zrun cfg prog sched) j = zexec_items (map snd lab) sink0) in Hobj.
+  assert (F : Forall (bitem j kd) (map snd lab)).
+  { apply Forall_forall. intros it Hin. apply in_map_iff in Hin. destruct Hin as ([t it'] & E & Hin). cbn in E. subst it'.
+    apply owned_in in Hin. destruct (Hpre t) as (rest & P).
+    destruct (thread_items_on cfg j kd (nth t prog []) Hk) as [F _]. rewrite Forall_forall in F. apply F.
+    rewrite <- P. apply in_or_app. now left. }
+  exists (fun t => flat_map item_lines (owned t lab)), (flat_map item_lines (map snd lab)). split; [|split].
+  - intros t. destruct (Hpre t) as (rest & P). exists (flat_map item_lines rest).
+    rewrite <- flat_map_app, P. unfold prog_lines. apply (thread_items_on cfg j kd _ Hk).
+  - apply merge_flat_map. exists lab. split; [reflexivity|auto].
+  - rewrite Hobj. destruct kd as [k|size].
+    + intros u Hu. destruct (serial_locked j k _ F sink0 eq_refl) as [_ H]. now rewrite (H u Hu).
+    + apply (serial_buffered_prefix j size _ F).
+Qed.
+
+(* ------------------------------------------------------------------ *)
+(* D. the model can express the failures                                *)
+(* ------------------------------------------------------------------ *)
+Lemma prog_lines_lths j prog t : prog_lines j prog t = lths (map (thread_lines j) prog) t.
+Proof.
+  unfold prog_lines, lths. revert t. induction prog as [|p r IH]; intros [|t]; cbn [map nth]; auto.
+Qed.
+
+Lemma stream_ok_check j prog s :
+  (forall t l, In l (nth t (map (thread_lines j) prog) []) -> wf_line l = true) ->
+  StreamOk (prog_lines j prog) s -> check_stream (map (thread_lines j) prog) s = true.
+Proof.
+  intros W (sigma & M & E). apply check_stream_complete; [exact W|]. exists sigma. split; [|exact E].
+  eapply merge_ext; [|exact M]. intros t. apply prog_lines_lths.
+Qed.
+
+Definition ent (c : byte) : entry := {| echunks := [[[c]; [nl]]]; esync := false |}.
+Definition two_threads : list (list op) := [[OLog (ent x61)]; [OLog (ent x62)]].
+
+Lemma two_threads_wf t l : In l (nth t (map (thread_lines 0) two_threads) []) -> wf_line l = true.
+Proof.
+  destruct t as [|[|t]]; intros H.
+  - simpl in H. destruct H as [<-|[]]. reflexivity.
+  - simpl in H. destruct H as [<-|[]]. reflexivity.
+  - simpl in H. destruct t; contradiction.
+Qed.
+
+(* (a) the mutex dropped: "a" "\n" and "b" "\n" interleave as "ab\n\n" *)
+Theorem unlocked_refuted :
+  exists cfg prog sched,
+    let s := run sinkst sact sact_run (zcode_nolock cfg prog) (fun _ => sink0) sched in
+    complete sinkst sact s /\ ~ StreamOk (prog_lines 0 prog) (outs (obj s 0) 0).
+Proof.
+  exists [KLocked 1], two_threads, [0; 1; 0; 1]. split.
+  - intros [|[|[|t]]]; vm_compute; reflexivity.
+  - intros H. apply (stream_ok_check 0 two_threads _ two_threads_wf) in H. vm_compute in H. discriminate.
+Qed.
+
+(* (b) two sink calls per entry (line, then newline), each under the mutex: same tearing *)
+Theorem two_writes_refuted :
+  exists cfg prog sched,
+    let s := run sinkst sact sact_run (zcode_two cfg prog) (fun _ => sink0) sched in
+    complete sinkst sact s /\ ~ StreamOk (prog_lines 0 prog) (outs (obj s 0) 0).
+Proof.
+  exists [KLocked 1], two_threads, [0; 0; 0; 1; 1; 1; 1; 1; 1; 0; 0; 0]. split.
+  - intros [|[|[|t]]]; vm_compute; reflexivity.
+  - intros H. apply (stream_ok_check 0 two_threads _ two_threads_wf) in H. vm_compute in H. discriminate.
+Qed.
+
+(* (c) BufferedWriteSyncer without zap's pre-flush rule: bufio's fill-flush-continue
+   loop puts "ab\nc" into the sink -- a torn line at a crash point (size 4, "ab\n" then "cd\n") *)
+Theorem noflush_refuted :
+  exists size p q,
+    let x := bws_write_noflush size (bws_write_noflush size sink0 p) q in
+    wf_line p = true /\ wf_line q = true /\
+    ~ exists n, outs x 0 = concat (firstn n [p; q]).
+Proof.
+  exists 4, [x61; x62; x0a], [x63; x64; x0a]. split; [reflexivity|]. split; [reflexivity|].
+  intros (n & H). vm_compute in H. destruct n as [|[|[|n]]]; discriminate.
+Qed.
+
+(* ------------------------------------------------------------------ *)
+(* E. wire                                                              *)
+(* ------------------------------------------------------------------ *)
+Lemma branches_in cfg jk : In jk (branches cfg) ->
+  nth_error cfg (fst jk) = Some (snd jk) /\ forall d, nth (fst jk) (branches cfg) d = jk.
+Proof.
+  unfold branches. intros H.
+  assert (G : forall c a, In jk (combine (seq a (length c)) c) ->
+            a <= fst jk /\ nth_error c (fst jk - a) = Some (snd jk) /\
+            forall d, nth (fst jk - a) (combine (seq a (length c)) c) d = jk).
+  { induction c as [|k0 c IH]; intros a Hin; [destruct Hin|]. cbn [length seq combine] in *.
+    destruct Hin as [<-|Hin].
+    - cbn [fst snd]. rewrite Nat.sub_diag. auto.
+    - destruct (IH (S a) Hin) as (L & N & D). split; [lia|].
+      replace (fst jk - a) with (S (fst jk - S a)) by lia. auto. }
+  destruct (G cfg 0 H) as (_ & N & D). rewrite Nat.sub_0_r in *. auto.
+Qed.
+
+Lemma branches_length cfg : length (branches cfg) = length cfg.
+Proof. unfold branches. rewrite combine_length, seq_length. apply Nat.min_id. Qed.
+
+Lemma write_items_lines cfg j kd ops : nth_error cfg j = Some kd ->
+  Forall (bitem j kd) (write_items_on cfg j ops) /\
+  flat_map item_lines (write_items_on cfg j ops) = thread_lines j ops.
+Proof.
+  intros H. destruct (thread_items_on cfg j kd ops H) as [F L]. unfold write_items_on. rewrite <- L. split.
+  - apply Forall_forall. intros it Hi. apply filter_In in Hi. rewrite Forall_forall in F. now apply F.
+  - clear. induction (zon_lock j (thread_items cfg ops)) as [|it r IH]; [reflexivity|].
+    cbn [filter]. destruct it; cbn [flat_map item_lines app]; [now rewrite IH|exact IH].
+Qed.
+
+Lemma nth_map_nil {A B} (f : list A -> list B) (l : list (list A)) t : f [] = [] -> nth t (map f l) [] = f (nth t l []).
+Proof. intros H. revert t. induction l as [|x r IH]; intros [|t]; cbn; auto. Qed.
+
+Lemma serial_branch_ok cfg prog hint j kd : nth_error cfg j = Some kd ->
+  forall u, u < nsinks kd ->
+  StreamOk (lths (map (thread_lines j) prog)) (outs (serial_branch cfg prog hint j) u).
+Proof.
+  intros Hk u Hu. unfold serial_branch.
+  set (its := pick hint (map (write_items_on cfg j) prog)).
+  assert (M : MergeOf (lths (map (write_items_on cfg j) prog)) its) by apply pick_merge.
+  assert (F : Forall (bitem j kd) its).
+  { apply Forall_forall. intros it Hi. destruct (merge_elems _ _ _ M Hi) as (t & Ht). unfold lths in Ht.
+    rewrite (nth_map_nil (write_items_on cfg j)) in Ht by reflexivity.
+    destruct (write_items_lines cfg j kd (nth t prog []) Hk) as [F _]. rewrite Forall_forall in F. now apply F. }
+  exists (flat_map item_lines its). split.
+  - apply (merge_ext (fun t => flat_map item_lines (lths (map (write_items_on cfg j) prog) t))).
+    + intros t. unfold lths. rewrite (nth_map_nil (write_items_on cfg j)) by reflexivity.
+      rewrite (nth_map_nil (thread_lines j)) by reflexivity. apply (write_items_lines cfg j kd _ Hk).
+    + now apply merge_flat_map.
+  - now apply (serial_out j kd its F u).
+Qed.
+
+Lemma nth_map_lt {A B} (f : A -> B) l n d d' : n < length l -> nth n (map f l) d = f (nth n l d').
+Proof. revert n. induction l as [|x r IH]; intros [|n] H; cbn in *; try lia; auto. apply IH. lia. Qed.
+
+Theorem spec_model i : wf i = true -> spec i (model i) = true.
+Proof.
+  intros W. unfold spec, model, wf in *. cbn [sx_l].
+  rewrite map_length, branches_length, Nat.eqb_refl. cbn [andb].
+  apply forallb_forall. intros jk Hin.
+  rewrite forallb_forall in W. specialize (W jk Hin).
+  destruct (branches_in _ _ Hin) as [Hk Hn].
+  assert (L : fst jk < length (branches (dec_cfg i))).
+  { rewrite branches_length. apply nth_error_Some. now rewrite Hk. }
+  match goal with |- context [sx_nth (SL (map ?F ?l)) (fst jk)] =>
+    assert (E : sx_nth (SL (map F l)) (fst jk) = F jk)
+      by (unfold sx_nth; cbn [sx_l]; now rewrite (nth_map_lt F l _ _ (0, KLocked 0) L), Hn);
+    rewrite !E; clear E end.
+  unfold sx_nth. cbn [sx_l nth sx_z].
+  rewrite map_length, seq_length, Nat.eqb_refl. cbn [andb Z.eqb Pos.eqb].
+  apply forallb_forall. intros st Hst. apply in_map_iff in Hst. destruct Hst as (u & <- & Hu).
+  apply in_seq in Hu. apply check_stream_complete.
+  - intros t l Hl. rewrite (nth_map_nil (thread_lines (fst jk))) in Hl by reflexivity.
+    destruct (Nat.lt_ge_cases t (length (dec_prog i))) as [Lt|G].
+    + rewrite forallb_forall in W. specialize (W (nth t (dec_prog i) []) (nth_In _ _ Lt)).
+      rewrite forallb_forall in W. now apply W.
+    + rewrite nth_overflow in Hl by exact G. destruct Hl.
+  - apply (serial_branch_ok _ _ _ _ _ Hk). lia.
+Qed.
